@@ -1,4 +1,5 @@
 import FeatherModel.Lemmas.TinyRead
+import FeatherModel.Lemmas.TinyHeader
 
 /-! Classes, the whole file, and the canonical form (C03). -/
 
@@ -224,12 +225,17 @@ theorem canon_classes {m : Mappings} (h : wf m = true) :
   intro c hc
   rw [readClass_eq (wf_class h c (mem_sortBy.mp hc))]
 
+/-- the lines of the classes start at indentation 0: there the header section ends -/
+theorem classT_head (cs : List Class) : ∀ l ∈ (cs.flatMap classT).head?, l.indent = 0 := by
+  cases cs with
+  | nil => simp
+  | cons c cs => simp [List.flatMap_cons, classT]
+
 /-- the round trip on the proved domain -/
 theorem read_write_writable {n : Nat} {m : Mappings} (h : writable n m = true) :
     read n (write m) = some (canon m) := by
-  simp only [writable, Bool.and_eq_true, decide_eq_true_eq, beq_iff_eq, List.all_eq_true, Bool.not_eq_true',
-    Option.isNone_iff_eq_none] at h
-  obtain ⟨⟨⟨⟨⟨hn, hlen⟩, hns⟩, hdoc⟩, hwf⟩, hcls⟩ := h
+  simp only [writable, Bool.and_eq_true, decide_eq_true_eq, beq_iff_eq, List.all_eq_true, Bool.not_eq_true'] at h
+  obtain ⟨⟨⟨⟨hn, hlen⟩, hns⟩, hwf⟩, hcls⟩ := h
   have hcmem : ∀ c ∈ sortBy classLe m.classes.values, ∃ e ∈ m.classes, e.2 = c := by
     intro c hc
     have := mem_sortBy.mp hc
@@ -237,17 +243,18 @@ theorem read_write_writable {n : Nat} {m : Mappings} (h : writable n m = true) :
   -- the lines
   have hhead := header_parsed (ns := m.ns) (fun s hs => (hns s hs).2)
   have hparsed : Parsed (writeLines m)
-      ({ indent := 0, first := TINY, fields := [50] :: [48] :: m.ns } :: (sortBy classLe m.classes.values).flatMap classT) := by
+      ({ indent := 0, first := TINY, fields := [50] :: [48] :: m.ns } ::
+        (docT 1 m.doc ++ (sortBy classLe m.classes.values).flatMap classT)) := by
     unfold writeLines
-    rw [hdoc]
     apply Parsed.cons hhead.1 hhead.2
-    simp only [docLines, List.nil_append]
+    apply (docLines_parsed 1 m.doc).append
     apply Parsed.flatMap
     intro c hc
     obtain ⟨⟨k, v⟩, he, rfl⟩ := hcmem c hc
     exact classLines_parsed (hcls (k, v) he)
   have htext : textLines (write m)
-      = { indent := 0, first := TINY, fields := [50] :: [48] :: m.ns } :: (sortBy classLe m.classes.values).flatMap classT := by
+      = { indent := 0, first := TINY, fields := [50] :: [48] :: m.ns } ::
+          (docT 1 m.doc ++ (sortBy classLe m.classes.values).flatMap classT) := by
     unfold textLines write
     rw [lines_write _ hparsed.ok, hparsed.eq]
   -- the run
@@ -276,14 +283,13 @@ theorem read_write_writable {n : Nat} {m : Mappings} (h : writable n m = true) :
     obtain ⟨s, hs, he⟩ := hany
     rw [(hns s hs).1] at he
     exact Bool.false_ne_true he
+  have hsec := headerSec_written m.doc _ (classT_head (sortBy classLe m.classes.values))
   unfold read
   rw [htext]
-  simp only [hn2, if_false, ne_eq, not_true_eq_false, hlen, hany, Bool.false_eq_true, hrun]
+  simp only [hn2, if_false, ne_eq, not_true_eq_false, hlen, hany, Bool.false_eq_true, hsec, hrun]
   congr 1
   cases m with
   | mk ns doc classes =>
-    simp only at hdoc
-    subst hdoc
     have := canon_classes hwf0
     simp only [canon] at this ⊢
     rw [this]
